@@ -6,12 +6,19 @@ import (
 	"os"
 
 	"verifh/eng/schist"
+	"verifh/eng/store"
+	"verifh/eng/unitchain"
+	"verifh/eng/unitsc"
 )
 
 var engines = map[string]func([]string) int{
 	"schist": schist.Main,
 	"determ": schist.DetermMain,
 	"sync":   schist.SyncMain,
+	"prune":  schist.PruneMain,
+	"store":  store.Main,
+	"unitsc": unitsc.Main,
+	"unitchain": unitchain.Main,
 }
 
 func main() {
